@@ -108,7 +108,7 @@ func SelfTest() error {
 		{name: "jle-jlt-jge", want: 7, build: func(a *Asm) {
 			a.MovImm(0, 0).MovImm(1, 5).
 				I(0xb5, 1, 0, 1, 5).I(0x05, 0, 0, 1, 0).I(0x47, 0, 0, 0, 1). // 5<=5
-				I(0xa5, 1, 0, 1, 5).I(0x47, 0, 0, 0, 2).                      // !(5<5) -> falls to or 2
+				I(0xa5, 1, 0, 1, 5).I(0x47, 0, 0, 0, 2).                     // !(5<5) -> falls to or 2
 				I(0x35, 1, 0, 1, 5).I(0x05, 0, 0, 1, 0).I(0x47, 0, 0, 0, 4). // 5>=5
 				Exit()
 		}},
@@ -317,6 +317,70 @@ func selfTestLPM() error {
 	t.Update(k(8, 10, 0xff), []byte{7, 0, 0, 0}, 0)
 	if v, _ := t.Lookup(k(64, 10, 9)); v[0] != 7 {
 		return fmt.Errorf("selftest lpm: canonicalisation failed")
+	}
+	return nil
+}
+
+// SelfTestELF loads cstubs/selftest.c as compiled by tools/build_bpf.sh and checks the known result:
+// exercises section concatenation, map relocations, helper relocations by name, the memcmp libcall,
+// a callback pointer into .text (bpf_for_each_map_elem), .rodata access, 32-bit atomic fetch-or and
+// the skb load/store helpers.
+func SelfTestELF(path string) error {
+	p, err := LoadELF(path)
+	if err != nil {
+		return fmt.Errorf("selftest elf: %v", err)
+	}
+	main, err := p.WithEntry("st_main")
+	if err != nil {
+		return fmt.Errorf("selftest elf: %v", err)
+	}
+	for _, same := range []bool{true, false} {
+		vm := NewVM()
+		m := NewHashMap("st_map", 4, 16, 8)
+		val := func(a uint64) []byte {
+			b := make([]byte, 16)
+			binary.LittleEndian.PutUint64(b, a)
+			return b
+		}
+		m.Update([]byte{1, 0, 0, 0}, val(5), 0)
+		m.Update([]byte{2, 0, 0, 0}, val(6), 0)
+		vm.BindName("st_map", m)
+		var order []uint32
+		vm.ForEachPick = func(mm Map, rem [][]byte) int {
+			order = append(order, binary.LittleEndian.Uint32(rem[len(rem)-1]))
+			return len(rem) - 1 // reverse order
+		}
+		vm.Packet = []byte{1, 2, 3, 4, 5, 6, 7, 8, 1, 2, 3, 4, 5, 6, 7, 8}
+		want := uint64(1000 + 234 + 1*5 + 2*6 + 3*7 + 3*10000 + 100)
+		if !same {
+			vm.Packet[15] = 9
+			want -= 100
+		}
+		r0, err := vm.Run(main, make([]byte, 192))
+		if err != nil {
+			return fmt.Errorf("selftest elf: %v", err)
+		}
+		if uint32(r0) != uint32(want) {
+			return fmt.Errorf("selftest elf: r0=%d want %d", uint32(r0), want)
+		}
+		if got := binary.LittleEndian.Uint64(vm.Packet[0:8]); got != want {
+			return fmt.Errorf("selftest elf: result stored in packet = %d want %d", got, want)
+		}
+		if got := binary.LittleEndian.Uint64(vm.Packet[8:16]); got != 3 {
+			return fmt.Errorf("selftest elf: callback count = %d want 3", got)
+		}
+		if fmt.Sprint(order) != "[3 2 1]" {
+			return fmt.Errorf("selftest elf: for_each visiting order %v want [3 2 1]", order)
+		}
+		for _, k := range m.Keys() {
+			v, _ := m.Lookup(k)
+			if binary.LittleEndian.Uint32(v[12:]) != 0x10 {
+				return fmt.Errorf("selftest elf: atomic fetch-or in callback not applied to key %v: %x", k, v)
+			}
+		}
+		if v, ok := m.Lookup([]byte{3, 0, 0, 0}); !ok || binary.LittleEndian.Uint64(v) != 7 || binary.LittleEndian.Uint32(v[8:]) != 1 {
+			return fmt.Errorf("selftest elf: map_update_elem result wrong: %x", v)
+		}
 	}
 	return nil
 }
